@@ -48,7 +48,7 @@ def plan(tier, seed):
     return t
 
 
-def circuits_for(n, conn, prep=None, user_metadata=False):
+def circuits_for(n, conn, prep=None, user_metadata=False, layout=None):
     """user_metadata: the caller's preparation circuit carries its own (non-empty) metadata - legal, and it
     must neither disturb the readout information nor be modified."""
     from qiskit import QuantumCircuit
@@ -57,7 +57,7 @@ def circuits_for(n, conn, prep=None, user_metadata=False):
         prep = QuantumCircuit(n)
     if user_metadata:
         prep.metadata = {"experiment": "tomography-%d" % n, "shots": 4096}
-    ok, circs = call(full_state_tomography_circuits, prep, conn)
+    ok, circs = call(full_state_tomography_circuits, prep, conn, layout) if layout is not None else call(full_state_tomography_circuits, prep, conn)
     if ok and user_metadata and prep.metadata != {"experiment": "tomography-%d" % n, "shots": 4096}:
         return False, RuntimeError("the caller's preparation circuit's metadata was modified: %r" % (sorted(prep.metadata),))
     return ok, circs
@@ -168,7 +168,12 @@ def work_dense(task, p):
                 from ..workload import stabilizers as ws
                 prep = ws.qiskit_circuit([], n, ws.random_registers(n, rnd))      # the register made of several QuantumRegisters
                 p.counters["preparation circuits on several quantum registers"] += 1
-        ok, circs = circuits_for(n, conn, prep, user_metadata=(i % 2 == 1))
+        layout = None
+        if i % 5 == 4 or (n <= 3 and i % 2 == 0):
+            layout = list(range(n))
+            rnd.shuffle(layout)             # every qubit measured, in the order the caller lays the chain / star ... out on the device
+            p.counters["all qubits measured in a permuted order"] += 1
+        ok, circs = circuits_for(n, conn, prep, user_metadata=(i % 2 == 1), layout=layout)
         p.evals += 1
         if not ok:
             p.violate(key + "circuits-raise", "full_state_tomography_circuits raised %s: %s" % (exc_name(circs), str(circs)[:160]), case)
@@ -182,7 +187,13 @@ def work_dense(task, p):
         if not ok:
             p.violate(key + "fitter-raises", "density_matrix raised %s: %s" % (exc_name(dm), str(dm)[:200]), case)
             continue
-        err = float(np.abs(np.asarray(dm) - rho).max())
+        err = float(np.abs(np.asarray(dm) - rho).max())                     # full-register mode: the register's own frame
+        if layout is not None:
+            ok2, dm_red = call(f.density_matrix, False)
+            if ok2:                                                           # reduced mode: qubit layout[i] is qubit i of the matrix
+                err = max(err, float(np.abs(np.asarray(dm_red) - dense.ptrace(rho, layout, n)).max()))
+            else:
+                err = 1.0
         p.counters["state kind " + kind] += 1
         if kind != "mixed":
             p.nontrivial((n, conn, kind, seed, i))
@@ -190,7 +201,7 @@ def work_dense(task, p):
             ok, ev = call(f.expectation_values)
             detail = ""
             if ok:
-                worst = max(((abs(float(v) - float(np.real(np.trace(rho @ dense.pauli_mat(*tomo.pauli_key(P)[:2], n))))), P) for P, v in ev.items()), key=lambda t: t[0])
+                worst = max(((abs(float(v) - float(np.real(np.trace(rho @ dense.pauli_mat(*tomo.pauli_key(P)[:2], n))))), P) for P, v in ev.items()), key=lambda t: t[0]) if layout is None else (err, next(iter(ev)))
                 detail = "; worst Pauli %s off by %.3g" % (worst[1].to_label()[::-1], worst[0])
             p.violate(key + "density-matrix", "reconstructed density matrix of a %s state differs from the true one by %.3g (max entry)%s" % (kind, err, detail), case)
         if len(p.samples) < 1:
